@@ -217,6 +217,9 @@ Proofs/Lru.vos Proofs/Lru.vok Proofs/Lru.required_vos: Proofs/Lru.v Model/Lru.vo
 Proofs/LruCost.vo Proofs/LruCost.glob Proofs/LruCost.v.beautified Proofs/LruCost.required_vo: Proofs/LruCost.v Model/Lru.vo Proofs/Lru.vo
 Proofs/LruCost.vio: Proofs/LruCost.v Model/Lru.vio Proofs/Lru.vio
 Proofs/LruCost.vos Proofs/LruCost.vok Proofs/LruCost.required_vos: Proofs/LruCost.v Model/Lru.vos Proofs/Lru.vos
+Proofs/LruMulti.vo Proofs/LruMulti.glob Proofs/LruMulti.v.beautified Proofs/LruMulti.required_vo: Proofs/LruMulti.v Model/Lru.vo Proofs/Lru.vo Proofs/LruCost.vo
+Proofs/LruMulti.vio: Proofs/LruMulti.v Model/Lru.vio Proofs/Lru.vio Proofs/LruCost.vio
+Proofs/LruMulti.vos Proofs/LruMulti.vok Proofs/LruMulti.required_vos: Proofs/LruMulti.v Model/Lru.vos Proofs/Lru.vos Proofs/LruCost.vos
 Proofs/MetaCodec.vo Proofs/MetaCodec.glob Proofs/MetaCodec.v.beautified Proofs/MetaCodec.required_vo: Proofs/MetaCodec.v Base/Arith.vo Base/Plan.vo Base/Layout.vo Gen/Consts.vo Gen/Layouts.vo Model/MetaCodec.vo Model/MetaHdrs.vo
 Proofs/MetaCodec.vio: Proofs/MetaCodec.v Base/Arith.vio Base/Plan.vio Base/Layout.vio Gen/Consts.vio Gen/Layouts.vio Model/MetaCodec.vio Model/MetaHdrs.vio
 Proofs/MetaCodec.vos Proofs/MetaCodec.vok Proofs/MetaCodec.required_vos: Proofs/MetaCodec.v Base/Arith.vos Base/Plan.vos Base/Layout.vos Gen/Consts.vos Gen/Layouts.vos Model/MetaCodec.vos Model/MetaHdrs.vos
@@ -352,9 +355,9 @@ Props/C11.vos Props/C11.vok Props/C11.required_vos: Props/C11.v Model/Qcow2.vos 
 Props/C12.vo Props/C12.glob Props/C12.v.beautified Props/C12.required_vo: Props/C12.v Base/Plan.vo Model/Gates.vo Proofs/Gates.vo Gen/Consts.vo Gen/Gates.vo
 Props/C12.vio: Props/C12.v Base/Plan.vio Model/Gates.vio Proofs/Gates.vio Gen/Consts.vio Gen/Gates.vio
 Props/C12.vos Props/C12.vok Props/C12.required_vos: Props/C12.v Base/Plan.vos Model/Gates.vos Proofs/Gates.vos Gen/Consts.vos Gen/Gates.vos
-Props/C13.vo Props/C13.glob Props/C13.v.beautified Props/C13.required_vo: Props/C13.v Model/Lru.vo Proofs/Lru.vo Proofs/LruCost.vo Base/Plan.vo Base/Table.vo Model/Walk.vo Model/Io.vo Proofs/Io.vo Proofs/StreamReaders.vo Model/Vhd.vo Proofs/Vhd.vo Model/Vdi.vo Proofs/Vdi.vo Model/Vhdx.vo Proofs/Vhdx.vo Model/Hds.vo Proofs/Hds.vo
-Props/C13.vio: Props/C13.v Model/Lru.vio Proofs/Lru.vio Proofs/LruCost.vio Base/Plan.vio Base/Table.vio Model/Walk.vio Model/Io.vio Proofs/Io.vio Proofs/StreamReaders.vio Model/Vhd.vio Proofs/Vhd.vio Model/Vdi.vio Proofs/Vdi.vio Model/Vhdx.vio Proofs/Vhdx.vio Model/Hds.vio Proofs/Hds.vio
-Props/C13.vos Props/C13.vok Props/C13.required_vos: Props/C13.v Model/Lru.vos Proofs/Lru.vos Proofs/LruCost.vos Base/Plan.vos Base/Table.vos Model/Walk.vos Model/Io.vos Proofs/Io.vos Proofs/StreamReaders.vos Model/Vhd.vos Proofs/Vhd.vos Model/Vdi.vos Proofs/Vdi.vos Model/Vhdx.vos Proofs/Vhdx.vos Model/Hds.vos Proofs/Hds.vos
+Props/C13.vo Props/C13.glob Props/C13.v.beautified Props/C13.required_vo: Props/C13.v Model/Lru.vo Proofs/Lru.vo Proofs/LruCost.vo Proofs/LruMulti.vo Base/Plan.vo Base/Table.vo Model/Walk.vo Model/Io.vo Proofs/Io.vo Proofs/StreamReaders.vo Model/Vhd.vo Proofs/Vhd.vo Model/Vdi.vo Proofs/Vdi.vo Model/Vhdx.vo Proofs/Vhdx.vo Model/Hds.vo Proofs/Hds.vo
+Props/C13.vio: Props/C13.v Model/Lru.vio Proofs/Lru.vio Proofs/LruCost.vio Proofs/LruMulti.vio Base/Plan.vio Base/Table.vio Model/Walk.vio Model/Io.vio Proofs/Io.vio Proofs/StreamReaders.vio Model/Vhd.vio Proofs/Vhd.vio Model/Vdi.vio Proofs/Vdi.vio Model/Vhdx.vio Proofs/Vhdx.vio Model/Hds.vio Proofs/Hds.vio
+Props/C13.vos Props/C13.vok Props/C13.required_vos: Props/C13.v Model/Lru.vos Proofs/Lru.vos Proofs/LruCost.vos Proofs/LruMulti.vos Base/Plan.vos Base/Table.vos Model/Walk.vos Model/Io.vos Proofs/Io.vos Proofs/StreamReaders.vos Model/Vhd.vos Proofs/Vhd.vos Model/Vdi.vos Proofs/Vdi.vos Model/Vhdx.vos Proofs/Vhdx.vos Model/Hds.vos Proofs/Hds.vos
 Props/C14.vo Props/C14.glob Props/C14.v.beautified Props/C14.required_vo: Props/C14.v Base/Plan.vo Base/Layout.vo Gen/Consts.vo Gen/Layouts.vo Gen/MetaVmdkTables.vo Model/MetaCodec.vo Model/MetaQcow2.vo Model/MetaVhdx.vo Model/MetaVmdk.vo Model/MetaHdrs.vo Model/MetaHdd.vo Proofs/MetaCodec.vo Proofs/MetaQcow2.vo Proofs/MetaVhdx.vo Proofs/MetaVmdk.vo Proofs/MetaVmdkExt.vo Proofs/MetaHdd.vo Proofs/MetaHdrs.vo Proofs/MetaText.vo
 Props/C14.vio: Props/C14.v Base/Plan.vio Base/Layout.vio Gen/Consts.vio Gen/Layouts.vio Gen/MetaVmdkTables.vio Model/MetaCodec.vio Model/MetaQcow2.vio Model/MetaVhdx.vio Model/MetaVmdk.vio Model/MetaHdrs.vio Model/MetaHdd.vio Proofs/MetaCodec.vio Proofs/MetaQcow2.vio Proofs/MetaVhdx.vio Proofs/MetaVmdk.vio Proofs/MetaVmdkExt.vio Proofs/MetaHdd.vio Proofs/MetaHdrs.vio Proofs/MetaText.vio
 Props/C14.vos Props/C14.vok Props/C14.required_vos: Props/C14.v Base/Plan.vos Base/Layout.vos Gen/Consts.vos Gen/Layouts.vos Gen/MetaVmdkTables.vos Model/MetaCodec.vos Model/MetaQcow2.vos Model/MetaVhdx.vos Model/MetaVmdk.vos Model/MetaHdrs.vos Model/MetaHdd.vos Proofs/MetaCodec.vos Proofs/MetaQcow2.vos Proofs/MetaVhdx.vos Proofs/MetaVmdk.vos Proofs/MetaVmdkExt.vos Proofs/MetaHdd.vos Proofs/MetaHdrs.vos Proofs/MetaText.vos
